@@ -9,7 +9,7 @@ Oracle : the causal reference model (model.py): same values at the same source p
 """
 from rx.subject import Subject
 
-from ..common import Check, Outcome, Snap, bootstrap, norm
+from ..common import Check, Outcome, Snap, bootstrap, norm, with_prelude, prelude_tags, shrink_prelude, PRELUDE_TAGS
 from .. import gen, model, progs
 from ..muxmon import Monitor
 
@@ -23,7 +23,9 @@ def has_multislot(prog):
     return False
 
 
-def drive(prog, items, mode, env=None):
+def drive(prog, items, mode, env=None, prelude=None):
+    if prelude:
+        return progs.run_driven(prog, items, mode, env, prelude=prelude)
     cursor = [None]
     snap = Snap(cursor)
     subj = Subject()
@@ -84,10 +86,13 @@ class C11(Check):
                    'first/last/mean(reduce) on an empty key are outside the domain (discarded by the model)']
     ANCHORS = ['rxsci/data/roll.py', 'rxsci/data/split.py', 'rxsci/data/time_split.py', 'rxsci/operators/group_by.py',
                'rxsci/operators/tee_map.py', 'rxsci/operators/scan.py', 'rxsci/data/batch.py', 'rxsci/operators/multiplex.py']
-    REQUIRED_TAGS = ['roll', 'split', 'time_split', 'group_by', 'tee_map', 'batch', 'scan', 'mux', 'plain', 'depth>=2', 'scale']
+    REQUIRED_TAGS = ['roll', 'split', 'time_split', 'group_by', 'tee_map', 'batch', 'scan', 'mux', 'plain', 'depth>=2', 'scale'] + PRELUDE_TAGS
     REQUIRED_OBSERVED = ['outputs_positioned', 'outputs_before_completion', 'outputs_at_completion']
 
     def generate(self, rng, tier, shard, nshards):
+        return with_prelude(self._generate(rng, tier, shard, nshards), rng, size=lambda c: len(c['items']))
+
+    def _generate(self, rng, tier, shard, nshards):
         n = 20000 if tier == 'quick' else 10 ** 7
         for k in range(n):
             if k % 700 == 350:
@@ -129,7 +134,8 @@ class C11(Check):
         except model.Discard as d:
             out.discarded = str(d)
             return out
-        snap = drive(prog, items, mode)
+        snap = drive(prog, items, mode, prelude=case.get('prelude'))
+        prelude_tags(case, out)
         if snap.err is not None:
             return out.fail('stream-error-where-the-model-expects-items', error=repr(snap.err), emitted=len(snap.out))
         if not snap.done:
@@ -150,6 +156,7 @@ class C11(Check):
         return out
 
     def shrink(self, case):
+        yield from shrink_prelude(case)
         items = case['items']
         for k in range(len(items)):
             yield dict(case, items=items[:k] + items[k + 1:])
